@@ -17,6 +17,7 @@ H = 'vf.harness.'
 R = 'vf.replay.'
 
 SPECS = {}
+K = 'vf.py2smt.kernels.'
 
 SPECS['C01'] = {
     'functions': SEG_FUNCS + ['DLISWriter._make_visible_record', 'DLISWriter._check_visible_record_length',
@@ -31,6 +32,9 @@ SPECS['C01'] = {
              bounds=('every even cap in [12,16376]; 1<=L<=3*cap+30; t in [0,255]; both kinds',
                      'every even cap in [12,16376]; 1<=L<=6*cap+30; t in [0,255]; both kinds'),
              entry=['LogicalRecordBytes.make_segments']),
+        dict(fn=K + 'k2_segment_step', kind='smt', engine='smt', timeout=(300, 300), replay=R + 'layout:replay_seg_and_file',
+             bounds='ALL body lengths and capacities (LIA over Z): inductive step of the splitting loop + make_segment arithmetic',
+             entry=['LogicalRecordBytes.make_segments', 'LogicalRecordBytes.make_segment']),
         dict(fn=H + 'c01.reach_seg_contract', kind='reach', timeout=(60, 60), validate=R + 'layout:replay_seg_and_file'),
         dict(fn=H + 'c01.wit_seg_three_shortened_padded', kind='witness', timeout=(60, 60),
              validate=R + 'layout:replay_seg_and_file'),
@@ -64,8 +68,57 @@ SPECS['C15'] = {
              bounds=('every even cap in [12,16376] (= vrl-8 for every accepted vrl); 1<=L<=3*cap+30',
                      'every even cap in [12,16376]; 1<=L<=6*cap+30'),
              entry=['LogicalRecordBytes.make_segments']),
+        dict(fn=K + 'k2_segment_step', kind='smt', engine='smt', timeout=(300, 300), replay=R + 'layout:replay_seg_and_file',
+             bounds='ALL body lengths and capacities (LIA over Z): inductive step of the splitting loop + make_segment arithmetic',
+             entry=['LogicalRecordBytes.make_segments', 'LogicalRecordBytes.make_segment']),
         dict(fn=H + 'c01.reach_seg_writable', kind='reach', timeout=(60, 60), validate=R + 'layout:replay_seg_and_file'),
         dict(fn=H + 'c01.wit_seg_short_body', kind='witness', timeout=(60, 60), validate=R + 'layout:replay_seg_and_file'),
         dict(fn=H + 'c01.wit_seg_small_cap', kind='witness', timeout=(60, 60), validate=R + 'layout:replay_seg_and_file'),
+    ],
+}
+
+K = 'vf.py2smt.kernels.'
+SMT_ASSUME = ['py2smt translation of the named kernel (validated on every run against the real function on boundary '
+              'inputs); z3 4.8.12 and cvc5 1.0.3 both answer unsat']
+
+ENC = R + 'encoding:replay_encoding'
+SPECS['C06'] = {
+    'functions': ['write_struct', 'write_struct_uvari', 'write_struct_ascii', 'write_struct_ident', 'write_struct_status',
+                  'write_struct_obname', 'write_struct_objref', 'write_struct_dtime', 'RepresentationCode.convert',
+                  'EFLRItem.obname'],
+    'stubs': ['StructShim', 'Rope', 'LenStr', 'FakeDT'], 'cuts': CUTS, 'assumptions': CH_ASSUME + SMT_ASSUME,
+    'outside': ['FSINGL/FDOUBL bit patterns (struct.pack float kernels; only the format-table entries are checked)',
+                'non-ASCII rejection is a call-site contract: every text encoder must call .encode("ascii") with '
+                'strict errors; CPython\'s encoder is the trusted primitive',
+                'local-time interpretation of naive datetimes (C library / environment)'],
+    'selftests': ['venv:vf.stubs.selftest:selftest_rope_struct', 'venv:vf.stubs.selftest:selftest_format_table'],
+    'obligations': [
+        dict(fn=H + 'c06.ob_fixed_int', kind='universal', timeout=(60, 120), replay=ENC, bounds='6 integer codes x all integers',
+             entry=['write_struct', 'RepresentationCode.convert']),
+        dict(fn=H + 'c06.reach_fixed_int', kind='reach', timeout=(60, 60), validate=ENC),
+        dict(fn=H + 'c06.ob_uvari', kind='universal', timeout=(60, 120), replay=ENC, bounds='all integers', entry=['write_struct_uvari']),
+        dict(fn=H + 'c06.reach_uvari', kind='reach', timeout=(60, 60), validate=ENC),
+        dict(fn=H + 'c06.wit_uvari_4byte', kind='witness', timeout=(60, 60), validate=ENC),
+        dict(fn=H + 'c06.ob_status', kind='universal', timeout=(60, 120), replay=ENC, bounds='all integers', entry=['write_struct_status']),
+        dict(fn=H + 'c06.reach_status', kind='reach', timeout=(60, 60), validate=ENC),
+        dict(fn=H + 'c06.ob_ident_len', kind='universal', timeout=(60, 120), replay=ENC, bounds='0<=len<=70000 (abstract content)',
+             entry=['write_struct_ident']),
+        dict(fn=H + 'c06.reach_ident_len', kind='reach', timeout=(60, 60), validate=ENC),
+        dict(fn=H + 'c06.wit_ident_long', kind='witness', timeout=(60, 60), validate=ENC),
+        dict(fn=H + 'c06.ob_ascii_len', kind='universal', timeout=(60, 120), replay=ENC, bounds='0<=len<=1.2e9 (abstract content)',
+             entry=['write_struct_ascii']),
+        dict(fn=H + 'c06.reach_ascii_len', kind='reach', timeout=(60, 60), validate=ENC),
+        dict(fn=H + 'c06.ob_text_content', kind='universal', timeout=(120, 300), replay=ENC, bounds='symbolic ASCII text, len<=3; IDENT and ASCII',
+             entry=['write_struct_ident', 'write_struct_ascii']),
+        dict(fn=H + 'c06.reach_text_content', kind='reach', timeout=(60, 60), validate=ENC),
+        dict(fn=H + 'c06.ob_obname', kind='universal', timeout=(120, 300), replay=ENC,
+             bounds='origin, copy over all integers; name length 0..300; OBNAME and OBJREF', entry=['write_struct_obname', 'write_struct_objref']),
+        dict(fn=H + 'c06.reach_obname', kind='reach', timeout=(60, 60), validate=ENC),
+        dict(fn=H + 'c06.ob_dtime', kind='universal', timeout=(120, 300), replay=ENC,
+             bounds='year 1900..2155, month 1..12, day 1..31, h/m/s full range; millisecond = K3', entry=['write_struct_dtime']),
+        dict(fn=H + 'c06.reach_dtime', kind='reach', timeout=(60, 60), validate=ENC),
+        dict(fn=K + 'k1_uvari', kind='smt', engine='smt', timeout=(300, 300), replay=ENC, bounds='all integers (LIA)', entry=['write_struct_uvari']),
+        dict(fn=K + 'k3_dtime_ms', kind='smt', engine='smt', timeout=(600, 600), replay=ENC, bounds='0<=microsecond<=999999, IEEE-754 double',
+             entry=['write_struct_dtime']),
     ],
 }
